@@ -266,7 +266,7 @@ def run(facts, tier):
     # cyclic entity definitions: the visited test of the expansion must see the whole chain (G1) and extend it (G2)
     import guards
     xreach, _ = facts.reachable([facts.fn("xml_info::attr_value_from_name")["id"]])
-    guards.rule(facts, res, "R03-3g", [facts.fns[x] for x in set(reach) | set(xreach) if x in facts.fns], want=("G1", "G2", "G4"), floor=1)
+    guards.rule(facts, res, "R03-3g", [facts.fns[x] for x in set(reach) | set(xreach) if x in facts.fns], want=("G1", "G2", "G4", "G5"), floor=1)
     r03_4(facts, res, reach)
     from props import c01
     c01.r01_14(facts, res, "R03-6")      # unsupported constructs keep their kind, so that the expansion can refuse them
